@@ -5,6 +5,7 @@ use std::collections::{BTreeMap, BTreeSet};
 //@include _prelude.rs
 
 verus! {
+//@include _panic.rs
 
 // ---- environment (declarations only) -------------------------------------------------------
 //@include _std_nonzero.rs
